@@ -127,9 +127,92 @@ def named_values(ctx: evid.Ctx) -> None:
                 ctx.violation(f"named-value-wrong:{enum_cls.__name__}.{name}", f"{enum_cls.__name__}.{name} is encoded as {v}; RFC 4511 defines {rfc} ({table[rfc]})", {"msg": A.src(mk(member))})
 
 
+def decoded_known_controls(ctx: evid.Ctx) -> None:
+    """Messages an application gets *from the decoder* and sends on: a control of a library-known type (the classes are read
+    from ControlOptions, so newly added ones are covered) that arrived with no value / an empty value / other octets / the
+    class's own value exposes those octets as ``.value``; encoding that message must put exactly those octets on the wire."""
+    import sansldap as L
+
+    from vf.checks.c01 import _OID, _instances
+
+    res = L.LDAPResult(L.LDAPResultCode.SUCCESS, "", "", None)
+    for cls in list(L.ControlOptions().choices):
+        ct = getattr(cls, "control_type", None)
+        if not (isinstance(ct, str) and _OID.match(ct)):
+            continue
+        own = []
+        for inst in _instances(cls):
+            try:
+                own.append(inst.get_value(K.OPTS.control))
+            except BaseException:  # noqa: BLE001, S112
+                continue
+        for crit in (False, True):
+            for v in [None, b"", b"zz", b"\x30\x00"] + [x for x in own if x is not None]:
+                wire = L.SearchResultDone(3, [L.LDAPControl(ct, crit, v)], res).pack(K.OPTS)
+                try:
+                    m2, _rest = K.unpack(wire)
+                except BaseException:  # noqa: BLE001, S112
+                    continue  # not a value of that type: refusing it is the decoder's business (C05)
+                got = m2.controls[-1]
+                ctx.add("states")
+                ctx.add("transitions", 2)
+                exposed = getattr(got, "value", None)
+                back = R.decode_message(m2.pack(K.OPTS), strict=False)["controls"][-1]
+                if back["controlType"] != ct.encode() or back["criticality"] != crit or (exposed is not None and back["controlValue"] != exposed):
+                    ctx.violation(f"decoded-known-control-encodes-differently:{cls.__name__ if cls.__module__.startswith('sansldap') else 'custom'}",
+                                  f"{A.src(got)[:120]} (decoded from type {ct}, criticality {crit}, value {v!r}) is encoded as {back}", {"msg": None, "decoded_known": [ct, crit, None if v is None else v.hex()]})  # fmt: skip
+        ctx.distinct.add(("decoded-known", ct))
+
+
+def _lists_in(o: t.Any, seen: t.Set[int]) -> t.Iterator[t.List[t.Any]]:
+    import dataclasses
+
+    if id(o) in seen:
+        return
+    seen.add(id(o))
+    if isinstance(o, list):
+        yield o
+        for x in list(o):
+            yield from _lists_in(x, seen)
+    elif dataclasses.is_dataclass(o) and not isinstance(o, type):
+        for f in dataclasses.fields(o):
+            yield from _lists_in(getattr(o, f.name), seen)
+
+
+def pack_mutate_pack(ctx: evid.Ctx) -> None:
+    """A message object is packed, then one of the (ordinary, mutable) lists inside it is changed by the application -- a
+    sub-filter or a value appended, one removed -- and it is packed again: the second encoding must be that of the message as
+    it now is (nothing remembered from the first).  Every list of every rich base message, grown and shrunk."""
+    import copy
+
+    for base in U.base_messages(U.kinds()):
+        n_lists = sum(1 for lst in _lists_in(base, set()) if lst)
+        for li in range(n_lists):
+            for how in ("append", "pop"):
+                m = copy.deepcopy(base)
+                try:
+                    m.pack(K.OPTS)
+                except BaseException:  # noqa: BLE001, S112
+                    continue
+                lst = [x for x in _lists_in(m, set()) if x][li]
+                if how == "append":
+                    lst.append(copy.deepcopy(lst[0]))
+                else:
+                    lst.pop()
+                ctx.add("states")
+                ctx.add("transitions", 2)
+                for k, w in check_one(m):
+                    if k.startswith("not-rfc4511:UnbindRequest"):
+                        continue
+                    ctx.violation(f"after-caller-mutation:{k}", f"packed, then a list inside the message was changed ({how}), packed again: {w}", {"msg": None, "mutate": [A.src(base)[:1500], li, how]})
+    ctx.distinct.add(("pack-mutate-pack",))
+
+
 def run(ctx: evid.Ctx) -> None:
     thorough = ctx.tier == "thorough"
     named_values(ctx)
+    pack_mutate_pack(ctx)
+    decoded_known_controls(ctx)
     d = 3 if thorough else 2
     ks = U.kinds(big=thorough, depth3=thorough)
     _STATE["kinds"] = ks
@@ -158,6 +241,16 @@ def run(ctx: evid.Ctx) -> None:
 
 
 def replay(case: t.Dict[str, t.Any], key: t.Optional[str] = None) -> t.Tuple[bool, str]:
+    if case.get("msg") is None and "decoded_known" in case:
+        c = evid.Ctx("C03", "quick", 0)
+        decoded_known_controls(c)
+        hits2 = [v for k, v in c.viol.items() if key is None or k == key]
+        return (not hits2), "\n".join(f"  {v['key']}: {v['what']}" for v in hits2) or "decoded known controls are encoded with the octets they expose"
+    if case.get("msg") is None and "mutate" in case:
+        c = evid.Ctx("C03", "quick", 0)
+        pack_mutate_pack(c)
+        hits2 = [v for k, v in c.viol.items() if key is None or k == key]
+        return (not hits2), "\n".join(f"  {v['key']}: {v['what']}" for v in hits2) or "pack / mutate / pack again encodes the current value"
     if case.get("msg") is None:
         hits = [v for m in U.big_messages() for v in check_one(m) if key is None or v[0] == key]
         return (not hits), "\n".join(f"  {k}: {w}" for k, w in hits) or "64 KiB cases encode to RFC 4511 BER"
